@@ -2,7 +2,7 @@
 # Runs the repository's test suite (guard off) and compares with the stable_pass list of BASELINE.json.
 # Usage: baseline_check.sh [out.json]   (takes ~25 minutes)
 out=${1:-/var/tmp/verif-baseline.json}
-cd /repo && export GOFLAGS=-mod=mod GOPROXY=off
+cd ${BASE_DIR:-/repo} && export GOFLAGS=-mod=mod GOPROXY=off
 go test -mod=mod -json -vet=off -count=1 -timeout 25m ./... > "$out" 2>/var/tmp/verif-baseline.err
 python3 - "$out" <<'PY'
 import json,sys
